@@ -1,6 +1,7 @@
 import Np.Proofs.MapCoef
 import Np.Model.Align
 import Np.Proofs.GradArr
+import Np.Proofs.AlignAll
 /-! C04 — alignment changes representation only: property theorems -/
 namespace Np.Props.C04
 open MvPolynomial
@@ -74,6 +75,64 @@ theorem alignAll_common (ps : List (Poly S)) (hw : ∀ p ∈ ps, WF p) :
   ⟨alignAll_length ps, fun q hq => ⟨alignAll_names ps q hq, alignAll_expos ps q hq, alignAll_WF ps hw q hq⟩,
     fun b hb => den_alignAll ps hw b hb⟩
 end many
+
+/-! ### the aligners on arrays, any number of operands (`Np/Model/Align.lean` is what the driver runs) -/
+section toplevel
+open Shape
+variable {R : Type} [CommSemiring R] [BEq R] [LawfulBEq R]
+
+/-- **align_polynomials**: fails (ValueError) iff the shapes do not broadcast, with no other error; on success all
+outputs share the broadcast shape, one name tuple and one strictly ascending list of exponent rows, are well-formed,
+and element `i` of output `k` is the broadcast element of input `k` -/
+theorem align_polynomials_spec (rc rn : Bool) (as : List (Arr R)) (hw : ∀ a ∈ as, a.WF)
+    (hp : ∀ a ∈ as, Pos a.shape) :
+    (alignPolynomialsAll rc rn as = .error .valueError ↔ bshapeAll (as.map (·.shape)) = none) ∧
+    (∀ e, alignPolynomialsAll rc rn as = .error e → e = .valueError) ∧
+    ∀ cs, alignPolynomialsAll rc rn as = .ok cs →
+      ∃ (s : List Nat) (ns : List Name) (es : List Expo),
+        bshapeAll (as.map (·.shape)) = some s ∧ cs.length = as.length ∧ SortedLt expoLt es ∧
+        ∀ k (hk : k < as.length) (hk' : k < cs.length),
+          cs[k].shape = s ∧ cs[k].poly.names = ns ∧ cs[k].poly.expos = es ∧ cs[k].WF ∧
+          ∀ (i : Fin (size cs[k].shape)) (j : Fin (size as[k].shape)),
+            j.val = bindex as[k].shape s i.val → cs[k].elem i = as[k].elem j :=
+  alignPolynomialsAll_spec rc rn as hw hp
+
+/-- **align_shape / align_indeterminants / align_exponents** separately: same elements (broadcast for align_shape),
+common shape / index-ordered union of the names / common rows; operands that already comply are returned untouched -/
+theorem align_shape_spec (rc rn : Bool) (as : List (Arr R)) (hw : ∀ a ∈ as, a.WF) (hp : ∀ a ∈ as, Pos a.shape) :
+    (alignShapeAll rc rn as = .error .valueError ↔ bshapeAll (as.map (·.shape)) = none) ∧
+    alignShapeAll rc rn as ≠ .error .internal ∧
+    ∀ bs, alignShapeAll rc rn as = .ok bs →
+      ∃ s, bshapeAll (as.map (·.shape)) = some s ∧ bs.length = as.length ∧
+        ∀ k (hk : k < as.length) (hk' : k < bs.length),
+          bs[k].shape = s ∧ bs[k].WF ∧ (as[k].shape = s → bs[k] = as[k]) ∧
+          ∀ (i : Fin (size bs[k].shape)) (j : Fin (size as[k].shape)),
+            j.val = bindex as[k].shape s i.val → bs[k].elem i = as[k].elem j :=
+  alignShapeAll_spec rc rn as hw hp
+theorem align_indeterminants_spec (as : List (Arr R)) (hw : ∀ a ∈ as, a.WF) :
+    (alignIndetAll as).length = as.length ∧
+    ∀ k (hk : k < as.length) (hk' : k < (alignIndetAll as).length),
+      (alignIndetAll as)[k].poly.names = sortDedup natLt (as.flatMap (·.poly.names)) ∧
+      (alignIndetAll as)[k].shape = as[k].shape ∧ (alignIndetAll as)[k].WF ∧
+      (as[k].poly.names = sortDedup natLt (as.flatMap (·.poly.names)) → (alignIndetAll as)[k] = as[k]) ∧
+      ∀ (i : Fin (size (alignIndetAll as)[k].shape)) (j : Fin (size as[k].shape)), i.val = j.val →
+        (alignIndetAll as)[k].elem i = as[k].elem j :=
+  alignIndetAll_spec as hw
+theorem align_exponents_spec (as : List (Arr R)) (hw : ∀ a ∈ as, a.WF) :
+    (alignExpoAll as).length = as.length ∧
+    ∀ k (hk : k < as.length) (hk' : k < (alignExpoAll as).length),
+      (alignExpoAll as)[k].poly.names = alignedNames as ∧ (alignExpoAll as)[k].poly.expos = alignedRows as ∧
+      (alignExpoAll as)[k].shape = as[k].shape ∧ (alignExpoAll as)[k].WF ∧
+      ∀ (i : Fin (size (alignExpoAll as)[k].shape)) (j : Fin (size as[k].shape)), i.val = j.val →
+        (alignExpoAll as)[k].elem i = as[k].elem j :=
+  alignExpoAll_spec as hw
+
+/-- **idempotence**: aligning aligned operands returns them unchanged, whatever the retain flags -/
+theorem align_polynomials_idempotent (rc rn rc' rn' : Bool) (as cs : List (Arr R)) (hw : ∀ a ∈ as, a.WF)
+    (hp : ∀ a ∈ as, Pos a.shape) (h : alignPolynomialsAll rc rn as = .ok cs) :
+    alignPolynomialsAll rc' rn' cs = .ok cs :=
+  alignPolynomialsAll_idem rc rn rc' rn' as cs hw hp h
+end toplevel
 
 /-- non-vacuity: q0·q2² over (q0,q2) aligned to (q0,q1,q2) -/
 example : (alignIndet [0, 1, 2] ({ names := [0, 2], terms := [([1, 2], (5 : Int))] } : Poly Int)).terms = [([1, 0, 2], 5)] := by
